@@ -337,3 +337,104 @@ where
       exact (List.take_of_length_le (by omega)).symm
 
 end SSV.Stream
+
+namespace SSV.Stream
+open SSV.Gen.C01
+
+/-- the client's first transport write with the identity headers made explicit -/
+theorem dial_head_hdrs (C : Crypto) (cc : ClientCfg) (ch : DialChoice) (t : Addr) (P : Bytes) :
+    ∃ body tail, (∀ ipsks, ∃ tail', (dial C { cc with ipsks := ipsks } ch t P).segs =
+        (cc.reqPrefix ++ ch.salt ++ (identityHeaders C { cc with ipsks := ipsks } ch.salt).flatten ++ body) :: tail') ∧
+      (dial C cc ch t P).segs = (cc.reqPrefix ++ ch.salt ++ (identityHeaders C cc ch.salt).flatten ++ body) :: tail :=
+  ⟨_, _, fun _ => ⟨_, by simp only [dial, List.append_assoc]; rfl⟩, by simp only [dial, List.append_assoc]; rfl⟩
+
+/-- one relay: the first identity header of an `i0 :: i1 :: rest` client names `i1`; stripping it
+gives, byte for byte, the request of the same client configured with `i1 :: rest` -/
+theorem relayStrip_request {C : Crypto} (hE : EihOK C) (pre salt body later : Bytes) (psk i0 i1 : Bytes) (rest : List Bytes)
+    (rp rs : Bytes) (a : Bool) :
+    let cc : ClientCfg := ⟨psk, i0 :: i1 :: rest, rp, rs, a⟩
+    let cc' : ClientCfg := ⟨psk, i1 :: rest, rp, rs, a⟩
+    relayStrip C pre.length salt.length i0 i1 (pre ++ salt ++ (identityHeaders C cc salt).flatten ++ body ++ later) =
+      some (pre ++ salt ++ (identityHeaders C cc' salt).flatten ++ body ++ later) := by
+  intro cc cc'
+  have hh : identityHeaders C cc salt = C.eihEnc i0 salt (C.pskHash i1) :: identityHeaders C cc' salt := by
+    simp [identityHeaders, eihHashes, cc, cc']
+  have hl : (C.eihEnc i0 salt (C.pskHash i1)).length = IdentityHeaderLength := by rw [hE.enc_len, hE.hash_len]
+  rw [hh, List.flatten_cons]
+  have e1 : ((pre ++ salt ++ (C.eihEnc i0 salt (C.pskHash i1) ++ (identityHeaders C cc' salt).flatten) ++ body ++ later).drop pre.length).take salt.length = salt := by
+    simp only [List.append_assoc, List.drop_left, List.take_left]
+  have e2 : ((pre ++ salt ++ (C.eihEnc i0 salt (C.pskHash i1) ++ (identityHeaders C cc' salt).flatten) ++ body ++ later).drop (pre.length + salt.length)).take IdentityHeaderLength =
+      C.eihEnc i0 salt (C.pskHash i1) := by
+    rw [← List.length_append, ← hl]
+    simp only [List.append_assoc]
+    rw [← List.append_assoc pre salt, List.drop_left, List.take_left]
+  have e3 : (pre ++ salt ++ (C.eihEnc i0 salt (C.pskHash i1) ++ (identityHeaders C cc' salt).flatten) ++ body ++ later).take (pre.length + salt.length) = pre ++ salt := by
+    rw [← List.length_append]
+    simp only [List.append_assoc]
+    rw [← List.append_assoc pre salt, List.take_left]
+  have e4 : (pre ++ salt ++ (C.eihEnc i0 salt (C.pskHash i1) ++ (identityHeaders C cc' salt).flatten) ++ body ++ later).drop (pre.length + salt.length + IdentityHeaderLength) =
+      (identityHeaders C cc' salt).flatten ++ body ++ later := by
+    rw [← List.length_append, ← hl, ← List.length_append]
+    have : pre ++ salt ++ (C.eihEnc i0 salt (C.pskHash i1) ++ (identityHeaders C cc' salt).flatten) ++ body ++ later =
+        (pre ++ salt ++ C.eihEnc i0 salt (C.pskHash i1)) ++ ((identityHeaders C cc' salt).flatten ++ body ++ later) := by
+      simp only [List.append_assoc]
+    rw [this, List.drop_left]
+  unfold relayStrip
+  simp only [e1, e2, e3, e4, hE.dec_enc, ↓reduceIte]
+  simp only [List.append_assoc]
+
+/-- the whole chain: the relays holding `i0, …` in front of the holder of the last iPSK turn the
+request of the `n`-iPSK client into the request of the client configured with the last iPSK only -/
+theorem relayAll_request {C : Crypto} (hE : EihOK C) (pre salt body later psk rp rs : Bytes) (a : Bool) :
+    ∀ (front : List Bytes) (last : Bytes),
+      relayAll C pre.length salt.length (front ++ [last])
+        (pre ++ salt ++ (identityHeaders C ⟨psk, front ++ [last], rp, rs, a⟩ salt).flatten ++ body ++ later) =
+      some (pre ++ salt ++ (identityHeaders C ⟨psk, [last], rp, rs, a⟩ salt).flatten ++ body ++ later) := by
+  intro front
+  induction front with
+  | nil => intro last; rfl
+  | cons i0 f ih =>
+    intro last
+    cases f with
+    | nil =>
+      have := relayStrip_request hE pre salt body later psk i0 last [] rp rs a
+      simp only [List.cons_append, List.nil_append, relayAll] at this ⊢
+      rw [this]
+    | cons i1 f' =>
+      have h1 := relayStrip_request hE pre salt body later psk i0 i1 (f' ++ [last]) rp rs a
+      have h2 := ih last
+      simp only [List.cons_append, relayAll] at h1 h2 ⊢
+      rw [h1]
+      exact h2
+
+end SSV.Stream
+
+namespace SSV.Stream
+open SSV.Gen.C01
+
+/-- `DialStream` with another list of iPSKs differs in the identity headers only -/
+theorem dial_segs_ipsks (C : Crypto) (cc : ClientCfg) (ipsks' : List Bytes) (ch : DialChoice) (t : Addr) (P : Bytes) :
+    ∃ body tl,
+      (dial C cc ch t P).segs = (cc.reqPrefix ++ ch.salt ++ (identityHeaders C cc ch.salt).flatten ++ body) :: tl ∧
+      (dial C { cc with ipsks := ipsks' } ch t P).segs =
+        (cc.reqPrefix ++ ch.salt ++ (identityHeaders C { cc with ipsks := ipsks' } ch.salt).flatten ++ body) :: tl :=
+  ⟨_, _, by simp only [dial, List.append_assoc]; rfl, by simp only [dial, List.append_assoc]⟩
+
+/-- the relays in front of the server turn the request of a client with the iPSK chain
+`front ++ [last]` into the request of the same client configured with `[last]` alone: same salt,
+same sealed headers, same excess chunks -/
+theorem relay_chain_request {C : Crypto} (hE : EihOK C) (cc : ClientCfg) (front : List Bytes) (last : Bytes)
+    (hip : cc.ipsks = front ++ [last]) (ch : DialChoice) (t : Addr) (P later : Bytes) :
+    ∃ req req1 tl, (dial C cc ch t P).segs = req :: tl ∧
+      (dial C { cc with ipsks := [last] } ch t P).segs = req1 :: tl ∧
+      relayAll C cc.reqPrefix.length ch.salt.length cc.ipsks (req ++ later) = some (req1 ++ later) := by
+  obtain ⟨body, tl, h1, h2⟩ := dial_segs_ipsks C cc [last] ch t P
+  refine ⟨_, _, tl, h1, h2, ?_⟩
+  have := relayAll_request hE cc.reqPrefix ch.salt body later cc.psk cc.reqPrefix cc.respPrefix cc.allowSeg front last
+  have e1 : (⟨cc.psk, front ++ [last], cc.reqPrefix, cc.respPrefix, cc.allowSeg⟩ : ClientCfg) = cc := by
+    cases cc; simp at hip ⊢; exact hip.symm
+  have e2 : (⟨cc.psk, [last], cc.reqPrefix, cc.respPrefix, cc.allowSeg⟩ : ClientCfg) = { cc with ipsks := [last] } := rfl
+  rw [e1, e2, ← hip] at this
+  exact this
+
+end SSV.Stream
